@@ -514,6 +514,29 @@ Proof.
     simpl. split; [exists r; auto | intros r0; destruct r0; exact I].
 Qed.
 
+(* which names and keys are refused *)
+Lemma abs_root_kind : forall s, is_absolute s = true -> root_kind s <> 0%nat.
+Proof.
+  intros s H. destruct s as [|a r]; [discriminate|]. simpl in *.
+  apply N.eqb_eq in H. subst a. simpl. destruct r as [|b r]; [discriminate|].
+  destruct (b =? slash); [destruct r as [|x r]; [discriminate | destruct (x =? slash); discriminate] | discriminate].
+Qed.
+
+Theorem escaping_refused : forall c,
+  (forall n, is_absolute n = false -> spec_norm n = None -> checked_path (base c) n = None) /\
+  (forall nn n, is_absolute n = true -> is_prefix (base c) (parse_parts n) = false ->
+                checked_path_gen nn (base c) n = None) /\
+  (forall k co f, k <> [] -> is_absolute k = false -> spec_key k = None -> chunk_path c f k co = None) /\
+  (forall n, is_absolute n = false -> existsb is_dotdot (parse_parts n) = true -> sh_path (base c) n = None).
+Proof.
+  intro c. repeat split.
+  - intros n H1 H2. rewrite (checked_path_rel c n H1), H2. reflexivity.
+  - intros nn n H1 H2. unfold checked_path_gen. pose proof (abs_root_kind n H1) as Hr.
+    destruct (root_kind n) as [|[|k]]; [contradiction | rewrite H2; reflexivity | reflexivity].
+  - intros k co f Hk Ha Hs. rewrite (chunk_path_spec c f k co Hk Ha). unfold spec_chunk_name. rewrite Hs. reflexivity.
+  - intros n H1 H2. unfold sh_path, checked_path_gen, rel_ok. rewrite (root_kind_rel0 n H1), H2. reflexivity.
+Qed.
+
 End C12.
 
 (* ====================================================================== *)
